@@ -176,6 +176,7 @@ def run_judge(module, cfg, records, workers=16, timeout=3600, env=None, heap='6g
         lenient.setdefault(v[0], []).append(v[1])
     for v in parse_printed(out, 'D'):
         drift.setdefault(v[0], []).append(v[1])
+    res['accepted'] = set(v[0] for v in parse_printed(out, 'A'))
     want = set(r['id'] for r in records)
     if checked != want:
         missing = sorted(want - checked)[:10]
